@@ -4,8 +4,9 @@ from autobean_refactor import models
 from autobean_refactor.models import base as mbase
 
 CASES = {'quick': 4000, 'thorough': 60000}
+SMALL_BLOCKS = 4      # runner: every 4th case keeps its stores in 2..10-token blocks
 GATES = {
-    'quick': {'evaluations': 15000, 'steps_changing_store': 8000, 'op_kinds_seen': 70, 'popped_nodes_checked': 150,
+    'quick': {'cases_in_small_blocks': 50, 'evaluations': 15000, 'steps_changing_store': 8000, 'op_kinds_seen': 70, 'popped_nodes_checked': 150,
               'edits_through_inserted_nodes': 200, 'claim_steps': 800, 'token_steps': 800},
     'thorough': {'evaluations': 400000, 'op_kinds_seen': 80, 'popped_nodes_checked': 5000},
 }
